@@ -2,6 +2,7 @@
 package main
 
 import (
+	"strconv"
 	"fmt"
 	"net"
 	"os"
@@ -204,6 +205,9 @@ func expectKindsRec(reg string, idents []int, evs []event) (string, string) {
 	out := make([]byte, len(evs))
 	for j, e := range evs {
 		switch e.letter {
+		case 'o':
+			out[j] = '-'
+			reg = "none" // no kernel timestamps from here on
 		case 'e', 't', 'f':
 			out[j] = e.letter
 		case 'x', 'r', 'w':
@@ -572,6 +576,41 @@ func gen(c *lib.Ctx) {
 			h := fixedHist(k.kind, reg, k.idents, k.evs)
 			h.kbs = g.kbFor(c.Rand.Fork(reg+k.evs), reg, len(h.evs))
 			g.run(h)
+		}
+	}
+	// ---- the listener's sockets stop stamping in the middle of a history (event o): datagrams
+	// without a receive-timestamp control message after datagrams that had one, transmit
+	// timestamps that never come after ones that came
+	if part == "" {
+		for _, kind := range kinds {
+			r := c.Rand.Fork("tsoff" + kind)
+			for i := 0; i < c.Scale(5, 40); i++ {
+				pre := g.randomHist(r, kind, "sw", 1+r.Intn(5))
+				h := pre
+				h.evs = append(append([]string{}, pre.evs...), fmt.Sprintf("o%d", r.Intn(2)))
+				h.kbs = append(append([]string{}, pre.kbs...), "n")
+				var ntpEv [][2]int // index, source of the NTP events so far
+				for j, e := range h.evs {
+					if e[0] == 'n' || e[0] == 'q' {
+						s, _ := strconv.Atoi(strings.SplitN(e[1:], ":", 2)[0])
+						ntpEv = append(ntpEv, [2]int{j, s})
+					}
+				}
+				for k := 1 + r.Intn(5); k > 0; k-- {
+					s := r.Intn(3)
+					ev := fmt.Sprintf("n%d:b", s)
+					if len(ntpEv) > 0 && r.Chance(50) {
+						q := ntpEv[r.Intn(len(ntpEv))]
+						s = q[1]
+						ev = fmt.Sprintf("n%d:%d", s, q[0])
+					}
+					ntpEv = append(ntpEv, [2]int{len(h.evs), s})
+					h.evs = append(h.evs, ev)
+					h.kbs = append(h.kbs, "n")
+				}
+				g.c.Count("hist:tsoff")
+				g.run(h)
+			}
 		}
 	}
 	// ---- random histories
